@@ -122,13 +122,7 @@ pub fn panic_class(msg: &str) -> String {
 pub fn model_class(ans: &str) -> String {
     if let Some(rest) = ans.strip_prefix("panic overflow ") {
         let site: u64 = rest.trim().parse().unwrap_or(0);
-        let c = match site {
-            1 | 5 | 6 | 20 | 30 | 31 | 32 => "sub-overflow",
-            2 | 3 | 4 | 7 | 8 | 21 | 22 => "mul-overflow",
-            9 | 12 => "add-overflow",
-            10 | 11 => "limit-total-overflow",
-            _ => "unknown-site",
-        };
+        let c = super::site_class(site);
         format!("panic {}", c)
     } else {
         ans.to_string()
